@@ -336,6 +336,9 @@ class ConnInfo:
         self.sqwr = []      # (seq, t, off, len, lost) squid -> peer writes
         self.prcv = 0       # bytes the peer actually received
         self.sqrd = 0
+        self.sqrd_app = 0
+        self.p2s_dropped = 0   # bytes in flight towards squid when an RST ended the connection
+        self.werr = False
         self.events = []    # (seq, t, kind, rest)
         self.established = None
         self.accepted = None
@@ -383,7 +386,7 @@ class Hist:
                     c.fd = int(rest[5]); c.nth = int(rest[6]); c.outcome = rest[7]
                 c.opened = (seq, t)
                 self.conns[c.id] = c
-            elif kind in ('PSND', 'SQWR', 'PRCV', 'SQRD', 'ACPT', 'ESTAB', 'CLOSE', 'PCLOSE', 'PFIN', 'PRSTSND', 'PEOF', 'PRST', 'CONNFAIL', 'RULE', 'NORULE', 'RSTBACK', 'PSNDLOST'):
+            elif kind in ('PSND', 'SQWR', 'PRCV', 'SQRD', 'ACPT', 'ESTAB', 'CLOSE', 'PCLOSE', 'PFIN', 'PRSTSND', 'PEOF', 'PRST', 'CONNFAIL', 'RULE', 'NORULE', 'RSTBACK', 'PSNDLOST', 'SQWERR', 'P2SDROP'):
                 c = self.conns.get(int(rest[0]))
                 if c is None:
                     continue
@@ -396,12 +399,18 @@ class Hist:
                 elif kind == 'SQRD':
                     if rest[1].isdigit():
                         c.sqrd += int(rest[1])
+                        if not c.werr:
+                            c.sqrd_app += int(rest[1])   # reads after a failed write are comm_close() draining the socket, not the application
                     else:
                         c.events.append((seq, t, 'SQRD_' + rest[1], []))
                 elif kind == 'RULE':
                     c.rules.append((seq, t, rest[1], int(rest[2])))
                     c.events.append((seq, t, kind, rest[1:]))
                 else:
+                    if kind == 'SQWERR':
+                        c.werr = True
+                    if kind == 'P2SDROP':
+                        c.p2s_dropped += int(rest[1])
                     if kind == 'ESTAB':
                         c.established = (seq, t)
                     if kind == 'ACPT':
@@ -432,6 +441,10 @@ class Hist:
     def to_squid(self, c):
         """bytes the peer sent towards squid on connection c"""
         return b''.join(self.bin[o:o + n] for (_, _, o, n) in c.psnd)
+    def arrived_at_squid(self, c):
+        """bytes of to_squid(c) that reached squid's socket (the rest was in flight when an RST ended the connection)"""
+        b = self.to_squid(c)
+        return b[:len(b) - c.p2s_dropped] if c.p2s_dropped else b
     def from_squid(self, c, include_lost=True):
         return b''.join(self.bin[o:o + n] for (_, _, o, n, lost) in c.sqwr if include_lost or not lost)
     def peer_received(self, c):
